@@ -157,8 +157,23 @@ Proof. unfold same. go_set. Qed.
 Lemma SetXX_equiv : forall key v exp, same (MSetXX key v exp).
 Proof. unfold same. go_set. Qed.
 
-Lemma GetEx_equiv : forall key exp, same (MGetEx key exp).
-Proof. unfold same. go. Qed.
+(** GetEx: go-redis sends PERSIST for a zero expiration, the adapter a plain GETEX *)
+Lemma GetEx_equiv : forall key exp, exp <> 0 -> same (MGetEx key exp).
+Proof.
+  unfold same. intros key exp H. cbv beta iota zeta delta [GoRedisSpec.goredis CompatArgs.adapter]. unf.
+  replace (exp =? 0) with false by (symmetry; apply Z.eqb_neq; exact H).
+  break_ifs; fin.
+Qed.
+
+Lemma GetEx_zero_differs : forall key, ~ same (MGetEx key 0).
+Proof. unfold same. intros key H. vm_compute in H. discriminate. Qed.
+
+Lemma GetEx_iff : forall key exp, same (MGetEx key exp) <-> exp <> 0.
+Proof.
+  intros key exp. split.
+  - intros H E. subst. exact (GetEx_zero_differs key H).
+  - apply GetEx_equiv.
+Qed.
 
 Lemma Expire_equiv : forall m key d, same (MExpire m key d).
 Proof. unfold same. intros m. destruct m; go. Qed.
@@ -308,14 +323,31 @@ Proof.
   - destruct c; eexists; reflexivity.
 Qed.
 
-Lemma Scan_equiv : forall cursor mtch count, same (MScan cursor mtch count).
-Proof. unfold same. go. Qed.
+(** SCAN family: the adapter prints the cursor as int64, go-redis as uint64: the same digits below 2^63 *)
+Lemma cursor_small : forall cursor, (cursor < 2 ^ 63)%N -> a_cursor cursor = D (print_N cursor).
+Proof.
+  intros cursor H. unfold a_cursor, int64_of_uint64.
+  replace (cursor <? 2 ^ 63)%N with true by (symmetry; apply N.ltb_lt; exact H).
+  destruct cursor; reflexivity.
+Qed.
 
-Lemma ScanType_equiv : forall cursor mtch count typ, same (MScanType cursor mtch count typ).
-Proof. unfold same. go. Qed.
+Lemma Scan_equiv : forall cursor mtch count, (cursor < 2 ^ 63)%N -> same (MScan cursor mtch count).
+Proof.
+  unfold same. intros cursor mtch count H. cbv beta iota zeta delta [GoRedisSpec.goredis CompatArgs.adapter].
+  rewrite (cursor_small cursor H). unf. break_ifs; fin.
+Qed.
 
-Lemma KScan_equiv : forall w key cursor mtch count, same (MKScan w key cursor mtch count).
-Proof. unfold same. intros w. destruct w; go. Qed.
+Lemma ScanType_equiv : forall cursor mtch count typ, (cursor < 2 ^ 63)%N -> same (MScanType cursor mtch count typ).
+Proof.
+  unfold same. intros cursor mtch count typ H. cbv beta iota zeta delta [GoRedisSpec.goredis CompatArgs.adapter].
+  rewrite (cursor_small cursor H). unf. break_ifs; fin.
+Qed.
+
+Lemma KScan_equiv : forall w key cursor mtch count, (cursor < 2 ^ 63)%N -> same (MKScan w key cursor mtch count).
+Proof.
+  unfold same. intros w key cursor mtch count H. destruct w;
+    cbv beta iota zeta delta [GoRedisSpec.goredis CompatArgs.adapter]; rewrite (cursor_small cursor H); unf; break_ifs; fin.
+Qed.
 
 Lemma MemoryUsage_equiv : forall key samples, same (MMemoryUsage key samples).
 Proof. unfold same. intros key [|a [|b r]]; reflexivity. Qed.
@@ -644,14 +676,22 @@ Proof. unfold same. go. Qed.
 Lemma ClientKillByFilter_equiv : forall keys, same (MClientKillByFilter keys).
 Proof. unfold same. go. Qed.
 
-Lemma ACLLog_equiv : forall count, same (MACLLog count).
-Proof. unfold same. go. Qed.
+Lemma ACLLog_equiv : forall count, 0 < count -> same (MACLLog count).
+Proof.
+  unfold same. intros count H. cbv beta iota zeta delta [GoRedisSpec.goredis CompatArgs.adapter]. unf.
+  replace (0 <? count) with true by (symmetry; apply Z.ltb_lt; exact H). reflexivity.
+Qed.
 
 (** ---------- all listed methods at once ---------- *)
 (** the arguments on which the adapter and the go-redis specification are claimed to agree *)
 Definition in_domain (c : call) : Prop :=
   match c with
   | MSetArgs _ _ a => valid_mode (sa_mode a)
+  | MGetEx _ exp => exp <> 0
+  | MScan cursor _ _ => (cursor < 2 ^ 63)%N
+  | MScanType cursor _ _ _ => (cursor < 2 ^ 63)%N
+  | MKScan _ _ cursor _ _ => (cursor < 2 ^ 63)%N
+  | MACLLog count => 0 < count
   | MMigrate _ _ _ _ timeout => a_format_sec timeout = a_format_ms timeout
   | MBitPosSpan _ _ _ _ span => valid_span span
   | MSort c _ s => valid_order (so_order s) /\ valid_sortcmd c
@@ -674,7 +714,7 @@ Proof.
   - apply SetEX_equiv.
   - apply SetNX_equiv.
   - apply SetXX_equiv.
-  - apply GetEx_equiv.
+  - apply GetEx_equiv; exact H.
   - apply Expire_equiv.
   - apply PExpire_equiv.
   - apply ExpireAt_equiv.
@@ -687,9 +727,9 @@ Proof.
   - apply BitPosSpan_equiv; exact H.
   - apply BitField_equiv.
   - apply Sort_equiv; tauto.
-  - apply Scan_equiv.
-  - apply ScanType_equiv.
-  - apply KScan_equiv.
+  - apply Scan_equiv; exact H.
+  - apply ScanType_equiv; exact H.
+  - apply KScan_equiv; exact H.
   - apply MemoryUsage_equiv.
   - apply LPos_equiv.
   - apply LPosCount_equiv.
@@ -723,7 +763,7 @@ Proof.
   - apply GeoSearchStore_equiv.
   - apply FunctionLoad_equiv.
   - apply ClientKillByFilter_equiv.
-  - apply ACLLog_equiv.
+  - apply ACLLog_equiv; exact H.
 Qed.
 
 End WithFloat.
